@@ -542,6 +542,12 @@ func (c call) render() string {
 		return `f() { return ` + a + `; __obs B "$?"; }; f`
 	case "exit":
 		return "exit " + a
+	case "echo":
+		return "echo " + a
+	case "pwd":
+		return "pwd " + a
+	case "unset":
+		return "unset " + a
 	}
 	panic("bad call " + c.K)
 }
@@ -583,7 +589,7 @@ func genWords(r *rand.Rand, max int) []string {
 
 func genCall(r *rand.Rand) call {
 	mk := func(k string, args ...string) call { return call{K: k, args: args, Args: hx.HexList(args)} }
-	switch r.IntN(22) {
+	switch r.IntN(26) {
 	case 0, 1, 2:
 		// set: parameters, with or without --, flags, -o forms
 		var a []string
@@ -693,6 +699,29 @@ func genCall(r *rand.Rand) call {
 			c.Args = hx.HexList(c.args)
 		}
 		return c
+	case 22, 23:
+		// echo: option loop, words without backslashes (echo -e goes through expand.Format)
+		var a []string
+		for i, n := 0, r.IntN(4); i < n; i++ {
+			a = append(a, hx.Pick(r, []string{"-n", "-e", "-E", "-n", "-x", "-ne", "--", "-", ""}))
+		}
+		a = append(a, genWords(r, 3)...)
+		return mk("echo", a...)
+	case 24:
+		var a []string
+		for i, n := 0, r.IntN(3); i < n; i++ {
+			a = append(a, hx.Pick(r, []string{"-L", "-P", "-L", "-P", "-X", "", "x", "-LP", "--"}))
+		}
+		return mk("pwd", a...)
+	case 25:
+		var a []string
+		for i, n := 0, r.IntN(3); i < n; i++ {
+			a = append(a, hx.Pick(r, []string{"-v", "-f", "-v", "-x"}))
+		}
+		for i, n := 0, r.IntN(3); i < n; i++ {
+			a = append(a, hx.Pick(r, []string{"x", "y", "OPTIND", "OPTARG", "x[0]", "x[1]", "y[0]", "OPTIND[0]", "x[", "x]", "[0]", "1x", "1x[0]", "nosuch", "nosuch[0]", "", "x[]", "x[0]]", "-v", "-f", "a b"}))
+		}
+		return mk("unset", a...)
 	case 19, 20:
 		var a []string
 		switch r.IntN(6) {
